@@ -13,7 +13,7 @@ TEXTS = {
     "f15": "1.5", "f1e21": "1e+21", "fDen": "5e-324", "f01": "0.1", "fNeg0": "-0", "f1em7": "1e-07",
     "fMax": "1.7976931348623157e+308", "fF32max": "3.4028235e+38", "fBig": "123456789.125", "fSmallNeg": "-2.5e-10",
     # strings
-    "sQ": "\"<\u2028\U0001F600", "sMix": "\\'&\n\x00\u00e9</script>", "sA": "a", "sSp": " \t\u2029\u00a0x",
+    "sQ": "\"<\u2028\U0001F600", "sMix": "\\'&\n\x00\u00e9</script>", "sA": "a", "sSp": " \t\r\u2029\u00a0x\x7f",
     # map keys
     "kb": "b", "ka": "a", "kB": "B", "kE": "\u00e9", "kQ": "\"'", "kLt": "a<", "kScr": "</script>",
     "k10": "10", "k2": "2", "km1": "-1", "kTrue": "true", "kFalse": "false",
